@@ -409,6 +409,18 @@ fn c09_curve<G: Cv>(o: &Opts, env: &Env, drv: &mut Driver, rep: &mut Report, rng
         }
         honest::<G>(env, drv, rep, "honest", xname, x, &label, param, key, tape);
     }
+    // the SAME label under several keys in a row on one thread (and the same key under several labels): whatever a call keeps
+    // (a label inverse, a hash) must not reach the next one
+    {
+        let (xname, x) = &xs[8];
+        let l1 = b"one label for several keys".to_vec(); let l2: Vec<u8> = vec![];
+        let order: Vec<usize> = if env.keys.len() >= 3 { vec![0, 1, 0, 2, 1] } else { vec![0, 1, 0] };
+        for (n, ki) in order.into_iter().enumerate() {
+            let tape = random_tape::<G>(rng, 128);
+            rep.hist("same-label-several-keys");
+            honest::<G>(env, drv, rep, "honest-same-label", xname, x, if n % 4 == 3 { &l2 } else { &l1 }, None, &env.keys[ki], tape);
+        }
+    }
     // the LARGEST serialised proofs: parameter 256 (and 255) under the widest key of the tier — sizes far above the default's
     if let Some(big) = env.keys.iter().max_by_key(|k| k.bits) {
         for (j, p) in [256usize, 255].iter().enumerate() {
@@ -532,7 +544,10 @@ fn c10_curve<G: Cv>(o: &Opts, env: &Env, drv: &mut Driver, rep: &mut Report, rng
         // second half of every round: a proof with MORE slots than the default (parameter 200 / 256); altered bytes in the slots
         // beyond 128 must be noticed like those in the first 128
         for sp in [128usize, if round % 2 == 0 { 256 } else { 200 }] {
-        let tape = random_tape::<G>(rng, sp);
+        let mut tape = random_tape::<G>(rng, sp);
+        // slots 0 and 1 use the nonce 0 (commitment = identity) and 1: points whose encodings have neighbours that decode to the
+        // same point in some groups (sign bit of an x = 0 point on Edwards curves)
+        write_nonce::<G>(&mut tape, 0, &G::Scalar::ZERO); write_nonce::<G>(&mut tape, 1, &G::Scalar::ONE);
         let Some(bytes) = honest::<G>(env, drv, rep, "honest", xname, x, &label, if sp == 128 { None } else { Some(sp) }, key, tape) else { continue };
         let q = G::generator() * *x;
         let (gsz, esz) = (G::POINT_LEN, key.pk.size());
@@ -552,9 +567,13 @@ fn c10_curve<G: Cv>(o: &Opts, env: &Env, drv: &mut Driver, rep: &mut Report, rng
             }
             for _ in 0..((if sp == 128 { 150 } else { 130 }) - positions.len().min(130)) { positions.push(rng.gen_range(0..bytes.len())); }
         }
-        for pos in positions {
+        // (position, forced delta): the first and the last byte of the commitments of slots 0 and 1 with the masks 0x80 and 0x01
+        let mut forced: Vec<(usize, u8)> = vec![];
+        if !exhaustive { for s in [0usize, 1] { let o0 = 40 + s * (gsz + 2 * esz); for m in [0x80u8, 0x01] { forced.push((o0, m)); forced.push((o0 + gsz - 1, m)); } } }
+        let plan: Vec<(usize, Option<u8>)> = forced.into_iter().map(|(p, m)| (p, Some(m))).chain(positions.into_iter().map(|p| (p, None))).collect();
+        for (pos, force) in plan {
             let mut b = bytes.clone();
-            let delta: u8 = match rng.gen_range(0..4) { 0 => 1, 1 => 0x80, 2 => 0xff, _ => rng.gen_range(1..=255) };
+            let delta: u8 = force.unwrap_or_else(|| match rng.gen_range(0..4) { 0 => 1, 1 => 0x80, 2 => 0xff, _ => rng.gen_range(1..=255) });
             b[pos] ^= delta;
             let cls = field_class(pos, bytes.len(), sp, gsz, esz);
             let rv = req_verify(&b, &q, key, &label);
